@@ -106,3 +106,50 @@ Lemma c1_model_agrees : c1_agrees c1_replacements.
 Proof.
   intros k H. do 32 (destruct k as [|k]; [vm_compute; reflexivity|]). lia.
 Qed.
+
+(* ------------------------------------------------------------------ totality *)
+Lemma span_digits : forall base l, exists ds rest,
+  l = ds ++ rest /\ forallb (is_digit base) ds = true /\ ends_digits base rest.
+Proof.
+  intros base l. induction l as [|c l IH].
+  - exists [], []. repeat split.
+  - destruct (is_digit base c) eqn:E.
+    + destruct IH as [ds [rest [H1 [H2 H3]]]]. exists (c :: ds), rest. subst l. repeat split.
+      * simpl. rewrite E, H2. reflexivity.
+      * exact H3.
+    + exists [], (c :: l). repeat split. exact E.
+Qed.
+
+(* whatever follows the '&', however it is split over feeds: the sub-tokenizer
+   never reaches a panic site, never runs out of steps, and ends with Done *)
+Theorem cr_total : forall T, table_ok T -> forall in_attr chunks,
+  exists chars, o_status (cr_feed T (cr_new in_attr) chunks [] false) = CrDone chars.
+Proof.
+  intros T Tok a chunks. rewrite chunks_whole. generalize (concat chunks) as input. clear chunks.
+  intro input.
+  destruct input as [|c r].
+  - exists []. apply (begin_other T a []). exact I.
+  - destruct (is_alnum c) eqn:Ea.
+    + destruct (named_whole T Tok a c r Ea) as [chars [H _]]. exists chars. exact H.
+    + destruct (c =? CH_HASH) eqn:Eh.
+      * apply N.eqb_eq in Eh. subst c.
+        destruct r as [|m r'].
+        -- exists []. apply (numeric_no_digits T a 10 [] []); [left; split; reflexivity|exact I|intros _; exact I].
+        -- destruct ((m =? CH_x) || (m =? CH_X)) eqn:Ex.
+           ++ assert (Hsh : num_shape 16 [m]).
+              { right. split; [reflexivity|]. apply orb_true_iff in Ex.
+                destruct Ex as [Ex|Ex]; apply N.eqb_eq in Ex; subst m; [left|right]; reflexivity. }
+              destruct (span_digits 16 r') as [ds [rest [H1 [H2 H3]]]]. subst r'.
+              destruct ds as [|d ds].
+              ** exists []. apply (numeric_no_digits T a 16 [m] rest Hsh H3). intro; discriminate.
+              ** eexists. apply (numeric_whole T a 16 [m] (d :: ds) rest Hsh); [discriminate|exact H2|exact H3].
+           ++ assert (Hsh : num_shape 10 []) by (left; split; reflexivity).
+              destruct (span_digits 10 (m :: r')) as [ds [rest [H1 [H2 H3]]]].
+              destruct ds as [|d ds].
+              ** simpl in H1. subst rest. exists [].
+                 apply (numeric_no_digits T a 10 [] (m :: r') Hsh H3). intros _. exact Ex.
+              ** rewrite H1. eexists.
+                 apply (numeric_whole T a 10 [] (d :: ds) rest Hsh); [discriminate|exact H2|exact H3].
+      * exists []. apply (begin_other T a (c :: r)). split; [exact Ea|].
+        intro; subst c. rewrite N.eqb_refl in Eh. discriminate.
+Qed.
